@@ -509,6 +509,30 @@ pub fn castle_delta(a: &Pos, b: &Pos, f: u8, t: u8) -> u64 {
     h ^ side_key() ^ if a.ep < 8 { ep_key(a.ep) } else { 0 }
 }
 
+/// Two boards that differ only in the en-passant file (both files accepted):
+/// the same position exactly when neither file allows a legal capture.
+pub fn two_files_body<N: Nd>(n: &mut N) {
+    let (p, half, full) = sym_accepted(n);
+    n.assume(p.ep < 8);
+    let f2 = n.u8();
+    n.assume(f2 < 8 && f2 != p.ep);
+    let mut q = p;
+    q.ep = f2;
+    let (half2, full2) = (n.u8(), n.u16());
+    n.assume(refm::accepts(&q, half2, full2));
+    describe(n, &p, half, full, 0, 0, 0);
+    if n.native() {
+        println!("witness: second board \"{}\"", fen(&q, half2, full2));
+    }
+    let h = n.u64();
+    let a = board_of(&p, half, full, h ^ ep_key(p.ep));
+    let b = board_of(&q, half2, full2, h ^ ep_key(q.ep));
+    let want = refm::same_position(&p, &q);
+    assert!(a.same_position(&b) == want);
+    vcover!(!want && refm::ep_capturable(&p) && refm::ep_capturable(&q), "both files capturable");
+    vcover!(want, "neither file capturable");
+}
+
 /// The behavioural en-passant key of a (symbolic) file.
 pub fn ep_key(f: u8) -> u64 {
     let mut k = 0u64;
@@ -645,6 +669,7 @@ macro_rules! bproofs {
 }
 
 bproofs! {
+    c13_two_files => |n: &mut _| two_files_body(n);
     c01_gen2_pawn_c1 => |n: &mut _| c01_gen2(n, 0, 1);
     c01_gen2_pawn_c3 => |n: &mut _| c01_gen2(n, 0, 3);
     c01_gen2_pawn_c4 => |n: &mut _| c01_gen2(n, 0, 4);
